@@ -8,6 +8,7 @@
 #define _GNU_SOURCE
 #include <plibsys.h>
 #include "hout.h"
+#include "netns.h"
 #include <errno.h>
 #include <fcntl.h>
 #include <poll.h>
@@ -223,7 +224,7 @@ int main(int argc, char **argv)
 {
     int s, pairs; long total = 0, nontriv = 0; char base[1024], got[1024];
     if (argc < 2) return 2;
-    hout_open(); p_libsys_init();
+verif_private_netns();     hout_open(); p_libsys_init();
     if (!strcmp(argv[1], "run") && argc >= 5) {
         for (s = 0; s < NSC; s++) if (!strcmp(SC[s].name, argv[2])) {
             run_one(s, -1, -1, base); run_one(s, atol(argv[3]), atol(argv[4]), got);
